@@ -7,7 +7,7 @@ import (
 )
 
 func (vt *Model) handleMouse(msg vaxis.Mouse) string {
-	if !vt.mode.mouseButtons && !vt.mode.mouseDrag && !vt.mode.mouseMotion && !vt.mode.mouseSGR {
+	if !vt.mode.mouseButtons && !vt.mode.mouseDrag && !vt.mode.mouseMotion {
 		if vt.mode.altScroll && vt.mode.smcup {
 			// Translate wheel motion into arrows up and down
 			// 3x rows
